@@ -53,6 +53,7 @@ def MExpr.size : MExpr → Nat × Nat
   | .reverse e _ _ => e.size
   | .map e => e.size
   | .viaTensor e => e.size
+  | .swapped e => (e.size.2, e.size.1)
 
 /-- the designated cell of index `(i, j)`: present exactly inside the size -/
 def MExpr.cell : MExpr → Nat → Nat → Option Nat
@@ -74,6 +75,7 @@ def MExpr.cell : MExpr → Nat → Nat → Option Nat
     else none
   | .map e, i, j => e.cell i j
   | .viaTensor e, i, j => e.cell i j
+  | .swapped e, i, j => e.cell j i
 
 /-- the leaves are genuine matrices (at least 1×1, at most `usize::MAX` elements) -/
 def MExpr.LeavesOk : MExpr → Prop
@@ -86,6 +88,7 @@ def MExpr.LeavesOk : MExpr → Prop
   | .reverse e _ _ => e.LeavesOk
   | .map e => e.LeavesOk
   | .viaTensor e => e.LeavesOk
+  | .swapped e => e.LeavesOk
 
 /-- every tensor wrapper in the composition wraps a non-empty view (otherwise
     `TensorRefMatrix::from` answers `Err`) -/
@@ -97,6 +100,7 @@ def MExpr.Buildable : MExpr → Bool
   | .reverse e _ _ => e.Buildable
   | .map e => e.Buildable
   | .viaTensor e => e.Buildable && decide (1 ≤ e.size.1) && decide (1 ≤ e.size.2)
+  | .swapped e => e.Buildable && decide (1 ≤ e.size.1) && decide (1 ≤ e.size.2)
 
 /-- the source at the bottom of a composition -/
 def MExpr.base : MExpr → MExpr
@@ -104,6 +108,7 @@ def MExpr.base : MExpr → MExpr
   | .reverse e _ _ => e.base
   | .map e => e.base
   | .viaTensor e => e.base
+  | .swapped e => e.base
   | e => e
 
 /-- the number of elements of the matrix (or tensor) at the bottom of a composition -/
@@ -115,6 +120,7 @@ def MExpr.dataLen : MExpr → Nat
   | .reverse e _ _ => e.dataLen
   | .map e => e.dataLen
   | .viaTensor e => e.dataLen
+  | .swapped e => e.dataLen
 
 /-- reading index `(i, j)` of a view over the data of its source -/
 def MExpr.read {α : Type} (e : MExpr) (data : List α) (i j : Nat) : Option α :=
@@ -128,7 +134,7 @@ def MExpr.write {α : Type} (e : MExpr) (data : List α) (i j : Nat) (x : α) : 
   | none => data
 
 /-- the layout a composition reports, declaratively: that of its source for ranges, maps and the
-    tensor round trip, `Other` after a reversal -/
+    tensor round trip, `Other` after a reversal, row- and column-major exchanged by a transposition -/
 def MExpr.layoutSpec : MExpr → MLayout
   | .leaf _ _ => .rowMajor
   | .leafCM _ _ => .columnMajor
@@ -137,6 +143,11 @@ def MExpr.layoutSpec : MExpr → MLayout
   | .reverse _ _ _ => .other
   | .map e => e.layoutSpec
   | .viaTensor e => e.layoutSpec
+  | .swapped e =>
+    match e.layoutSpec with
+    | .rowMajor => .columnMajor
+    | .columnMajor => .rowMajor
+    | .other => .other
 
 /-- two sources are equal when they have the same size and equal elements at every index -/
 def gridEqSpec (l r : Grid) : Prop :=
